@@ -8,14 +8,23 @@ import (
 	"upfcheck/internal/rules"
 )
 
+// developer aid: dbg <repo> [carried|tables]
 func main() {
-	repo := "/repo"
+	repo, what := "/repo", "carried"
 	if len(os.Args) > 1 {
 		repo = os.Args[1]
+	}
+	if len(os.Args) > 2 {
+		what = os.Args[2]
 	}
 	p, err := core.Load(repo)
 	if err != nil {
 		panic(err)
 	}
-	rules.DumpCarried(p, func(s string) { fmt.Println(s) })
+	switch what {
+	case "tables":
+		rules.DumpTables(p)
+	default:
+		rules.DumpCarried(p, func(s string) { fmt.Println(s) })
+	}
 }
